@@ -28,6 +28,10 @@ def main():
     meta = json.load(open(os.path.join(sd, "meta.json")))
     props = [meta["property"]]
     skip_confirm = "--skip-confirm" in sys.argv
+    confirm_only = "--confirm-only" in sys.argv
+    prev_checks = {}
+    if confirm_only and os.path.exists(os.path.join(sd, "result.json")):
+        prev_checks = json.load(open(os.path.join(sd, "result.json"))).get("checks", {})
     if "--props" in sys.argv:
         props = sys.argv[sys.argv.index("--props") + 1].split(",")
     crate = meta["crate"]
@@ -63,8 +67,19 @@ def main():
                 # pristine tree too) and take very long; the seeding agent's own filtered runs are recorded in meta.json
                 res["existing_lib_tests_pass_with_patch"] = "not re-run (see meta.json tests_run)"
             else:
-                rc, out = sh(["cargo", "test", "--offline", "-p", crate, "--lib", "-j", "8"] + feat, cwd=SCRATCH)
+                rc, out = sh(["cargo", "test", "--offline", "-p", crate, "--lib", "-j", "8", "--no-fail-fast"] + feat, cwd=SCRATCH)
                 res["existing_lib_tests_pass_with_patch"] = (rc == 0)
+                if rc != 0 and "could not compile" not in out:
+                    # tests that fail on the pinned tree too (missing test-data submodules): the baseline's always_fail set
+                    import re
+                    failed = set(re.findall(r"^test (\S+) \.\.\. FAILED", out, re.M))
+                    try:
+                        af = set(json.load(open("/root/.vp/BASELINE.json"))["always_fail"])
+                    except Exception:
+                        af = set()
+                    if failed and all((crate + "::" + t) in af for t in failed):
+                        res["existing_lib_tests_pass_with_patch"] = True
+                        res["existing_tests_note"] = "%d failing tests, all in the baseline's always_fail set (missing test data)" % len(failed)
                 res["existing_tests_tail"] = out[-300:]
             sh(["cp", os.path.join(sd, "demo.rs"), demo_dst])
             rc, out = sh(["cargo", "test", "--offline", "-p", crate, "--test", "seed_demo", "-j", "8"] + feat, cwd=SCRATCH)
@@ -74,6 +89,9 @@ def main():
                                             ("test result: FAILED" in out or "process abort signal" in out or "(signal:" in out))
             res["confirm_s"] = round(time.time() - t0)
             os.remove(demo_dst)
+        if confirm_only:
+            props = []
+            res["checks"] = prev_checks
         for p in props:
             t0 = time.time()
             env = dict(os.environ, VERIF_REPO=SCRATCH, VERIF_JOBS="8")
